@@ -356,3 +356,99 @@ def validate_layout(ctx, n, rng, label="translator-validation(layouts)"):
             ctx.mismatch(label, {"srcdrv": got, "python": want}, case_of(fname, args))
     ctx.notes.append(f"{label}: {k} calls of clip / rdist compared with the Python source")
     return k
+
+
+def validate_umap(ctx, n, rng, label="translator-validation(umap_)", only=None):
+    """the translated numba kernels of umap/umap_.py (Generated/UmapSrc.lean at Float) against the Python source"""
+    import umap.umap_ as U
+    ok, log = build()
+    if not ok:
+        ctx.notes.append("srcdrv did not build (translation validation unavailable): " + log[-600:])
+        ctx.proof["broken"].append("translator output does not compile at Float (srcdrv): see notes")
+        return 0
+    cases, lines = [], []
+
+    def tok_m(a):
+        a = np.asarray(a, dtype=np.float64)
+        return ["m", str(a.shape[0]), str(a.shape[1])] + [f2b(v) for v in a.ravel()]
+
+    def tok_im(a):
+        return ["im", str(a.shape[0]), str(a.shape[1])] + [str(int(v)) for v in a.ravel()]
+    for _ in range(n):
+        if only in (None, "_finite_mean"):
+            v = rng.normal(size=int(rng.integers(0, 8))) * 3
+            if len(v) and rng.random() < 0.5:
+                v[rng.integers(0, len(v))] = np.inf
+            cases.append(("_finite_mean", U._finite_mean, (v,)))
+            lines.append(" ".join(["_finite_mean", "1"] + tok_v(v)))
+        if only in (None, "fast_intersection"):
+            ns, nz = int(rng.integers(2, 7)), int(rng.integers(0, 12))
+            rows, cols = rng.integers(0, ns, nz), rng.integers(0, ns, nz)
+            vals = rng.random(nz)
+            tgt = rng.integers(-1, 3, ns).astype(np.int64)
+            ud, fd = float(rng.choice([1.0, 0.5, 2.5])), float(rng.choice([5.0, 2.5, 1e12]))
+            cases.append(("fast_intersection", U.fast_intersection, (rows, cols, vals, tgt, ud, fd)))
+            lines.append(" ".join(["fast_intersection", "6"] + tok_i(rows) + tok_i(cols) + tok_v(vals)
+                                  + ["z", str(len(tgt))] + [str(int(t)) for t in tgt] + ["s", f2b(ud), "s", f2b(fd)]))
+        if only in (None, "reprocess_row"):
+            p = rng.random(int(rng.integers(1, 9)))
+            if rng.random() < 0.3:
+                p[0] = 1.0
+            k = float(rng.choice([2.0, 5.0, 15.0]))
+            it = int(rng.choice([0, 1, 5, 32]))
+            cases.append(("reprocess_row", U.reprocess_row, (p, k, it)))
+            lines.append(" ".join(["reprocess_row", "3"] + tok_v(p) + ["s", f2b(k), "n", str(it)]))
+        if only in (None, "init_transform"):
+            n_new, kk, n_old, dim = int(rng.integers(1, 4)), int(rng.integers(1, 4)), int(rng.integers(1, 5)), int(rng.integers(1, 4))
+            idx = rng.integers(0, n_old, (n_new, kk))
+            w = rng.random((n_new, kk))
+            emb = rng.integers(-8, 9, (n_old, dim)) / 4.0
+            cases.append(("init_transform", U.init_transform, (idx, w, emb)))
+            lines.append(" ".join(["init_transform", "3"] + tok_im(idx) + tok_m(w) + tok_m(emb)))
+        if only in (None, "init_update"):
+            n_tot, kk, dim = int(rng.integers(2, 7)), int(rng.integers(1, 4)), int(rng.integers(1, 3))
+            n_old = int(rng.integers(1, n_tot + 1))
+            idx = rng.integers(0, n_tot, (n_tot, kk))
+            cur = rng.integers(-8, 9, (n_tot, dim)) / 4.0
+            cases.append(("init_update", U.init_update, (cur, n_old, idx)))
+            lines.append(" ".join(["init_update", "3"] + tok_m(cur) + ["n", str(n_old)] + tok_im(idx)))
+    p = subprocess.run([SRCDRV], input=("\n".join(lines) + "\n").encode(), stdout=subprocess.PIPE, stderr=subprocess.PIPE)
+    if p.returncode != 0:
+        raise InfraError("srcdrv failed: " + p.stderr.decode()[-1000:])
+    out = p.stdout.decode().split("\n")[:len(lines)]
+    k_cmp, per = 0, {}
+    for (fname, f, args), ans in zip(cases, out):
+        g = getattr(f, "py_func", f)
+        a2 = tuple(a.copy() if isinstance(a, np.ndarray) else a for a in args)
+        with np.errstate(all="ignore"):
+            try:
+                r = g(*a2)
+            except ZeroDivisionError:
+                continue
+        if fname == "fast_intersection":
+            want = [float(v) for v in a2[2]]            # in-place procedure: the mutated `values`
+        elif fname == "init_update":
+            want = [float(v) for v in np.asarray(a2[0]).ravel()]
+        elif isinstance(r, np.ndarray):
+            want = [float(v) for v in np.asarray(r).ravel()]
+        else:
+            want = [float(r)]
+        if ans in ("bad-op", "none"):
+            ctx.mismatch(label, {"srcdrv": ans, "python": want[:8]}, case_of(fname, args))
+            continue
+        got = [b2f(t) for t in ans.split()]
+        k_cmp += 1
+        per[fname] = per.get(fname, 0) + 1
+        tol = 2e-6 if fname == "init_transform" else 1e-11      # init_transform accumulates in a float32 array
+        bad = len(got) != len(want)
+        for a, b in zip(got, want):
+            if np.isnan(a) and np.isnan(b):
+                continue
+            if np.isinf(a) or np.isinf(b):
+                bad |= not (a == b)
+            elif abs(a - b) > tol * max(1.0, abs(b)):
+                bad = True
+        if bad:
+            ctx.mismatch(label, {"srcdrv": got[:8], "python": want[:8]}, case_of(fname, args))
+    ctx.notes.append(f"{label}: {k_cmp} calls of {sorted(per)} compared with the Python source")
+    return k_cmp
